@@ -151,6 +151,13 @@ pub struct RenderKnobs {
     pub json_directives: bool,
     /// mark every second enum value `@deprecated` (both formats; the generator ignores it today)
     pub deprecated_enum_values: bool,
+    /// SDL: after the definitions, one `extend input X @tag(name: "x")` per input object: an extension that adds a
+    /// directive and NO field changes nothing (the generator ignores extensions of input objects altogether, known
+    /// finding C07-non-object-type-extensions-ignored; one that only adds a directive is harmless either way)
+    pub input_directive_extensions: bool,
+    /// JSON with `json_wrapped`: further members of a full response around `data` (`extensions` after it, `errors: null`
+    /// before it), as servers with response extensions send them
+    pub json_response_members: bool,
 }
 
 impl Default for RenderKnobs {
@@ -164,6 +171,8 @@ impl Default for RenderKnobs {
             extensions_first: false,
             input_defaults: false,
             json_wrapped: false,
+            input_directive_extensions: false,
+            json_response_members: false,
             json_is_one_of: true,
             json_directives: true,
             deprecated_enum_values: true,
@@ -338,6 +347,9 @@ impl ASchema {
                         out.push_str(&format!("  {}: {}{}\n", n, t.render(), dflt));
                     }
                     out.push_str("}\n\n");
+                    if k.input_directive_extensions {
+                        exts.push_str(&format!("extend input {} @tag(name: \"x\")\n\n", name));
+                    }
                 }
             }
         }
@@ -471,7 +483,10 @@ impl ASchema {
             );
         }
         let inner = json!({ "__schema": Value::Object(schema) });
-        if k.json_wrapped {
+        if k.json_wrapped && k.json_response_members {
+            // (serde_json's `preserve_order` is not enabled: the members are written in key order, `data` < `errors` < `extensions`)
+            json!({ "data": inner, "errors": Value::Null, "extensions": {"tracing": {"version": 1, "duration": 12345}, "cost": [1, 2, 3]} })
+        } else if k.json_wrapped {
             json!({ "data": inner })
         } else {
             inner
@@ -506,12 +521,13 @@ impl Default for SchemaKnobs {
 }
 
 // two names that Rust normalization (UpperCamelCase) changes: `HTTPError` -> `HttpError`, `audit_entry` -> `AuditEntry`
-const OBJECT_NAMES: [&str; 12] = ["Dog", "Cat", "Person", "Organization", "Droid", "Starship", "Review", "Post", "Comment", "Tag", "HTTPError", "audit_entry"];
+// (names with ONE leading underscore are ordinary names - Apollo federation's `_Service` / `_Any`, Hasura's `_text`; only `__` is reserved)
+const OBJECT_NAMES: [&str; 13] = ["Dog", "Cat", "Person", "Organization", "Droid", "Starship", "Review", "Post", "Comment", "Tag", "HTTPError", "audit_entry", "_Service"];
 const IFACE_NAMES: [&str; 4] = ["Animal", "Named", "Node", "Entity"];
 const UNION_NAMES: [&str; 3] = ["SearchResult", "Pet", "Subject"];
-const ENUM_NAMES: [&str; 6] = ["Episode", "Color", "Status", "Unit", "HTTPMethod", "sort_order"];
-const SCALAR_NAMES: [&str; 3] = ["DateTime", "URL", "JSON"];
-const INPUT_NAMES: [&str; 7] = ["Filter", "Range", "Point", "Options", "Tree", "HTTPOptions", "page_input"];
+const ENUM_NAMES: [&str; 7] = ["Episode", "Color", "Status", "Unit", "HTTPMethod", "sort_order", "_Kind"];
+const SCALAR_NAMES: [&str; 4] = ["DateTime", "URL", "JSON", "_Any"];
+const INPUT_NAMES: [&str; 8] = ["Filter", "Range", "Point", "Options", "Tree", "HTTPOptions", "page_input", "_text_filter"];
 // (no two names of this pool may collide after snake-casing and keyword escaping: `Self` / `self` would)
 const FIELD_NAMES: [&str; 29] = [
     "name", "barks", "meows", "age", "weight", "isActive", "createdAt", "snake_case_field", "ownerId", "homepage",
@@ -623,7 +639,7 @@ pub fn random_schema(rng: &mut Rng, k: &SchemaKnobs) -> ASchema {
         for n in names {
             let base = rng.pick(&leaf_types).clone();
             let dep = if k.deprecations && rng.chance(15) {
-                Some(if rng.chance(60) { Some(rng.pick(&["Use something else", "old \"API\"", "no longer\nsupported", "ünïcode ✓"]).to_string()) } else { None })
+                Some(if rng.chance(60) { Some(rng.pick(&["Use something else", "old \"API\"", "no longer\nsupported", "ünïcode ✓", "No longer supported", ""]).to_string()) } else { None })
             } else {
                 None
             };
